@@ -38,4 +38,12 @@ def before (evs : List Ev) (a b : String) : Bool :=
 
 def calls (evs : List Ev) (c : String) : Bool := evs.any (isCall c)
 
+def rangeIdx (evs : List Ev) (x : String) : Option Nat := evs.findIdx? fun e => e.1 = "range" && e.2.1 = x
+
+/-- `for … := range <mapRange>` comes before the call `sortCall`, which comes before `for … := range <resultRange>` -/
+def sortedBetweenRanges (evs : List Ev) (mapRange sortCall resultRange : String) : Bool :=
+  match rangeIdx evs mapRange, callIdx evs sortCall, rangeIdx evs resultRange with
+  | some a, some b, some c => a < b && b < c
+  | _, _, _ => false
+
 end Gleece.Order
